@@ -381,6 +381,11 @@ func (c *CachedDatastore) newCachedIterator(
 		}, nil
 	}
 
+	// The time is taken BEFORE the query is issued: a datastore may fix the result when the iterator is
+	// opened, and an invalidation written between that moment and a later time stamp would not be
+	// recognised as newer than the (stale) result.
+	initializedAt := time.Now()
+
 	iter, err := dsIterFunc(ctx)
 	if err != nil {
 		return nil, err
@@ -402,7 +407,7 @@ func (c *CachedDatastore) newCachedIterator(
 		maxResultSize:     c.maxResultSize,
 		ttl:               c.ttl,
 		jitterPercentage:  c.jitterPercentage,
-		initializedAt:     time.Now(),
+		initializedAt:     initializedAt,
 		sf:                c.sf,
 		objectType:        objectType,
 		objectID:          objectID,
